@@ -29,6 +29,7 @@ type Config struct {
 	ConcreteInputs []InputVal
 	ConcretePrefix []int32
 	ConcreteKinds  string
+	ProfileInit    bool
 }
 
 type PortfolioStep struct {
